@@ -53,7 +53,7 @@ impl Prop for C20 {
         "C20"
     }
     fn cases(&self, tier: Tier) -> u64 {
-        tier.pick(1_000_000, 4_000_000)
+        tier.pick(1_000_000, 30_000_000)
     }
     fn strategy(&self, _tier: Tier) -> BoxedStrategy<Case> {
         let d = prop_oneof![4 => Just(1), 4 => Just(-1), 1 => 2..=6i32, 1 => -6..=-2i32];
